@@ -331,6 +331,10 @@ class Asm(AsyncStateMachine):
                     self.setWriteOp(st[1])
                 elif st[0] == "read":
                     self.need = len(self.got) + st[1]
+                elif st[0] == "read_until_closed":
+                    # keep a read outstanding until the peer's close_notify
+                    # has been answered by the read operation itself
+                    self.need = 1 << 40
                 elif st[0] == "close":
                     self.setCloseOp()
                 return True
@@ -373,7 +377,7 @@ def run_asm(sc, label, variant="asm"):
                     ("write", b"bye"), ("close",)])
     a_s = Asm(p.s, [("hs", fl.server_gen(p.s)), ("read", 48),
                     ("write", b"pong-from-server" * 3), ("read", 3),
-                    ("close",)])
+                    ("read_until_closed",)])
     views = {}
     idle = 0
     for _ in range(100000):
